@@ -653,8 +653,16 @@ def check_handles(world, rec):
         try:
             got = obj.eval()
         except Exception as ex:  # noqa
-            # objects not connected to this model's leaves cannot be evaluated
+            # objects not connected to this model's solved leaves cannot be evaluated; but an object all of whose
+            # leaves have a value must evaluate
             world.reach["handle_eval_raises"] += 1
+            try:
+                want = expected_value(world, name)
+            except Exception:
+                continue
+            if want is not None and not (kind == "point" and np.asarray(want).size == 0):
+                world.violation("O-HANDLES", "eval-raises-although-every-leaf-has-a-value:" + kind,
+                                {"handle": name, "exc": type(ex).__name__, "msg": str(ex)[:120]})
             continue
         try:
             want = expected_value(world, name)
@@ -886,7 +894,7 @@ def check_primal(world, rec):
             world.violation("O-PRIMAL", "lmi-violated:" + it["source"], {"min_eig": float(ev.min())})
             break
     # objective value = smallest metric
-    if len(rec.caps) == 1:
+    if True:
         mets = []
         for m in ep["metrics"]:
             try:
@@ -897,8 +905,17 @@ def check_primal(world, rec):
         obj = getattr(rec.pep, "objective", None)
         if mets and obj is not None:
             ov = float(obj.eval())
-            if abs(ov - min(mets)) > tol:
-                world.violation("O-PRIMAL", "objective-is-not-the-smallest-metric", {"objective": ov, "metrics": mets})
+            gap = abs(ov - min(mets))
+            if gap > tol:
+                cfg = rec.op.get("cfg") or {}
+                tolred = cfg.get("tol", 1e-4)
+                if len(rec.caps) >= 2 and cfg.get("heuristic") and ov <= min(mets) + tol and gap <= tolred + tol:
+                    # K-28 predicate: after a dimension reduction the objective variable is only bracketed by
+                    # wc - tol_dimension_reduction <= objective <= metrics, it is not pushed against the metrics
+                    world.violation("O-PRIMAL", "objective-below-the-smallest-metric-within-the-dimension-reduction-tolerance",
+                                    {"objective": ov, "min_metric": min(mets), "tol_dimension_reduction": tolred})
+                else:
+                    world.violation("O-PRIMAL", "objective-is-not-the-smallest-metric", {"objective": ov, "metrics": mets})
     # the primal value never exceeds the dual bound by more than solver tolerance
     mode = (rec.op.get("cfg") or {}).get("mode", "dual")
     a1 = rec.caps[0].answer
@@ -1038,6 +1055,12 @@ def check_tables(world, fname, tabs):
             world.violation("O-TABLES", "named-cell-is-not-the-multiplier-of-its-constraint",
                             {"table": cond, "cell": labs, "got": float(cell), "peer": wants[:3]})
         world.reach["table_named_cells"] += 1
+    # every table returned belongs to a condition generated at this solve (no table of an earlier solve's condition)
+    if calls:
+        for key in tabs:
+            if not any(c["name"] == key for c in calls):
+                world.violation("O-TABLES", "table-of-a-condition-that-was-not-generated-at-this-solve",
+                                {"table": key, "generated": sorted(set(c["name"] for c in calls))})
     # (b) positional truth: cell (i, j) vs the constraint the class generates for samples (i, j)
     for c in calls:
         key = c["name"]
@@ -1054,6 +1077,37 @@ def check_tables(world, fname, tabs):
         # expected labels
         def labels(lst):
             return [(t[0].get_name() or "Point_%d" % k) for k, t in enumerate(lst)]
+        # K-22: labels must identify samples.  Two clashes are the library's own doing: (a) unnamed samples are
+        # labelled by their position in *each* list, so "Point_0" of the rows and "Point_0" of the columns may be
+        # different samples; (b) two samples recorded at one point object (repeated evaluation of a
+        # non-differentiable function) share that point's label.  Two different points the user gave one name to
+        # are the user's business.
+        def clash_between(ta, ka, tb, kb):
+            if ta is tb:
+                return False
+            na, nb = ta[0].get_name(), tb[0].get_name()
+            if ta[0] is tb[0] and na is not None:
+                return True                                   # (b)
+            if na is None and nb is None and ka == kb:
+                return True                                   # (a)
+            return False
+        clash = False
+        for i, ti in enumerate(l1):
+            for j, tj in enumerate(l1):
+                if i < j and clash_between(ti, i, tj, -1 - j):
+                    clash = True
+        if l2 is not None:
+            for i, ti in enumerate(l2):
+                for j, tj in enumerate(l2):
+                    if i < j and clash_between(ti, i, tj, -1 - j):
+                        clash = True
+            for i, ti in enumerate(l1):
+                for j, tj in enumerate(l2):
+                    if clash_between(ti, i, tj, j):
+                        clash = True
+        if clash:
+            world.violation("O-TABLES", "labels-do-not-identify-the-samples", {"table": key, "rows": labels(l1)[:6],
+                                                                              "columns": labels(l2)[:6] if l2 is not None else []})
         if l2 is None:
             if [str(x) for x in tabs[key].columns] != labels(l1):
                 world.violation("O-TABLES", "table-labels", {"table": key})
